@@ -382,6 +382,10 @@ PLANS = {
                 runs=[("syntax", dict(quick=20000, thorough=600000), ["--focus", "C07"]), ("compiler", dict(quick=10000, thorough=300000))],
                 rule="all strings up to length 3 (thorough 4) over 25 syntax symbols x {-,u,v}; generated valid patterns, single-token mutations, random syntax-alphabet strings incl. surrogate code points; 30 adversarially large patterns (10^5..10^6 alternatives / nesting 255,256,257,10^5 / 65535,65536 groups and loops / 30-digit counts / 10^6-char literals / ...) each in a worker process; non-trivial = compiles",
                 technique="Lean 4 proofs about the parser / optimizer / emitter models with every Rust panic site explicit (case classes <= 4, pre-scan totality, …) + exact correspondence of the parser model (accept/reject and IR) + adversarial stream in worker processes"),
+    "C08": dict(proofs=["Proofs.C08", "Proofs.Lemmas.ESGrammarLaws", "Proofs.C07"],
+                runs=[("syntax", dict(quick=150000, thorough=3000000), ["--focus", "C08"])],
+                rule="all strings up to length 3 (thorough 4) over 25 syntax symbols x {-,u,v}; generated valid patterns of every flag set (character spellings varied: raw, \\xHH, \\uHHHH, \\u{..}, surrogate pairs, \\cX, control escapes, identity escapes), single-token mutations of them, random strings over the syntax alphabet incl. surrogate code points; every case asked both of Regex::with_flags and of the ES2025 grammar recognizer; non-trivial = compiles",
+                technique="Lean 4 recognizer of the ES2025 Pattern grammar incl. Annex B and early errors (written from ECMA-262 alone, validated against V8 on 10^8 strings) with a proof that it never runs out of fuel + exact correspondence of the parser model (accept/reject and IR) + parser totality theorems (C07) + differential implementation vs recognizer on every generated string"),
     "C15": dict(proofs=["Proofs.C15"], runs=[], custom="c15",
                 rule="one generated case file ((flags, pattern incl. single-token mutations of valid patterns, haystack, start)) replayed through find_from (optimized and no_opt, backtracking and PikeVM) by binaries built with default / index-positions / prohibit-unsafe / both / utf16 / alloc-only features; non-trivial = the default build finds a match",
                 technique="Lean 4 proof (any two build variants that refine the executor model agree wherever no error site is reachable - by the C06 safety theorem) + replay of one case file through six feature builds"),
